@@ -1108,6 +1108,9 @@ def leak_shapes():
     A(P("track-dropped", [L("tnew", "k"), spawn(2), join(2)], [L("tdrop", "k")]))
     A(P("track-kept", [L("tnew", "k"), spawn(2), join(2)], [ld("x")]))
     A(P("track-forgotten", [L("tnew", "k"), L("tforget", "k")]))
+    # a thread-local value owns a tracked allocation (the interpreter's thread-local values do): destroyed with its thread
+    A(P("track-in-thread-local", SJ(2) + [I("tlwith", "T0")] + JJ(2), [I("tlwith", "T0"), I("tlwith", "T1")], [I("tlwith", "T1"), ld("x")]))
+    A(P("track-in-thread-local-main-only", [I("tlwith", "T1"), I("tlwith", "T0"), spawn(2), join(2)], [ld("x")]))
     # released by the unwinding of a panic the program catches itself: released all the same
     A(P("track-dropped-by-caught-unwind", [L("tnew", "k"), spawn(2), join(2)], [L("tdrop", "k", k="unwind")]))
     A(P("track-dropped-by-caught-unwind-if-cas-wins", [L("tnew", "k")] + SJ(2) + JJ(2), [cas("x", 0, 1), br(1, 0, 1), L("tdrop", "k", k="unwind")], [cas("x", 0, 2)]))
@@ -1381,6 +1384,11 @@ def panic_base():
         [st("z", 1, "rel")], [ld("z", "acq")]))
     A(P("pb-panic-in-wmut-guard-thread", [spawn(2), ld("y"), join(2)], [I("aguard", "x"), ld("y"), I("wmut", "x", v=3, k="panic")]))
     A(P("pb-guard-plain", [spawn(2), ld("y"), join(2)], [I("aguard", "x"), st("x", 1), ld("y"), I("wmut", "x", v=3), st("x", 2)]))
+    # the thread blocks (for ever: a deadlock report) while a cell access is open
+    A(P("pb-deadlock-inside-cell-read", [spawn(2), join(2)], [ld("y"), I("rd", "c", k="parkin"), I("park")]))
+    A(P("pb-deadlock-inside-cell-write", [spawn(2), join(2)], [ld("y"), I("wr", "c", k="parkin"), I("park")]))
+    A(P("pb-deadlock-inside-cell-read-main", [spawn(2), I("rd", "c", k="parkin"), I("park"), join(2)], [ld("y")]))
+    A(P("pb-unparked-inside-cell-read", [spawn(2), unpark(2), join(2)], [ld("y"), I("rd", "c", k="parkin"), I("park"), ld("y")]))
     A(P("pb-panic-in-cell-read", [spawn(2), join(2), I("rd", "c", k="panic")], [L("wr", "c")]))
     A(P("pb-panic-in-cell-write", [spawn(2), join(2), I("wr", "c", k="panic")], [L("rd", "c")]))
     A(P("pb-panic-in-cell-write-then-reuse", SJ(2) + JJ(2), [I("aguard", "x"), ld("y"), I("wr", "c", k="panic")], [ld("y"), st("x", 1)]))
@@ -1424,7 +1432,8 @@ def crash_points(tier, seed):
     rng = random.Random(seed * 1009 + 61)
     progs = []
     for p in panic_base():
-        pts = [(t, i) for t in range(len(p["threads"])) for i in range(len(p["threads"][t]) + 1)]
+        pts = [(t, i) for t in range(len(p["threads"])) for i in range(len(p["threads"][t]) + 1)
+               if not (i > 0 and p["threads"][t][i - 1].get("k") == "parkin")]       # (a parkin access and its park are one step)
         if tier == "quick":
             rng.shuffle(pts)
             pts = pts[:5]
